@@ -387,11 +387,11 @@ func wrapLayers(tier string) []Layer {
 			{Name: "hash-long", Kinds: HashKinds, BufSizes: []int{16, 40}, Level: 2, Inputs: StructuredSet(17, 40, 81), Bound: 1},
 			{Name: "sa-b1", Kinds: sa, BufSizes: []int{2, 3, 5}, Level: 0, Inputs: Binary(6), Bound: 1},
 			{Name: "sa-b2", Kinds: sa, BufSizes: []int{3}, Level: 0, Inputs: Binary(5), Bound: 2},
-			{Name: "large", Kinds: Kinds, CfgsFn: largeConfigs, Inputs: Union(LargeSet(70000), LargeSet(200003)), Bound: 1, CfgPerShard: 1},
+			{Name: "large", Kinds: Kinds, CfgsFn: largeConfigs, Inputs: Union(LargeSet(140000), LargeSet(200003)), Bound: 1, CfgPerShard: 1},
 		}
 	}
 	return []Layer{
-		{Name: "large", Kinds: Kinds, CfgsFn: largeConfigs, Inputs: LargeSet(70000), Bound: 1, CfgPerShard: 1},
+		{Name: "large", Kinds: Kinds, CfgsFn: largeConfigs, Inputs: LargeSet(140000), Bound: 1, CfgPerShard: 1},
 		{Name: "hash-b1", Kinds: HashKinds, BufSizes: []int{1, 2, 3, 5, 8}, Level: 2, Inputs: Union(Binary(6), ZeroA(3)), Bound: 1},
 		{Name: "hash-b2", Kinds: HashKinds, BufSizes: []int{2, 3}, Level: 2, Inputs: Binary(4), Bound: 2},
 		{Name: "hash-long", Kinds: HashKinds, BufSizes: []int{16}, Level: 2, Inputs: FewLong(33), Bound: 1},
